@@ -245,8 +245,14 @@ def run_once(root, case, cwd, opt, guard_s, ei=0):
     try:
         if "file" in ent:
             p = os.path.join(root, *ent["file"])
-            if ent.get("style") == "rel":
+            if ent.get("style") in ("rel", "rel_dot"):
                 p = os.path.relpath(p, os.getcwd())
+                if ent.get("style") == "rel_dot":  # the same file, spelt with ./ , a doubled slash and dir/..
+                    head, tail = os.path.split(p)
+                    p = "./" + (head + "//" if head else "") + tail
+                    sub = sorted(d for d in os.listdir(".") if os.path.isdir(d))
+                    if sub:
+                        p = sub[0] + "/../" + p
             doc = (L.read_neuroml2_file(p, include_includes=True, optimized=bool(opt)) if dflt else
                    L.read_neuroml2_file(p, include_includes=True, already_included=al, optimized=bool(opt)))
         else:
@@ -379,8 +385,9 @@ def main():
                     for opt in case.get("opts", [False]):
                         for ei, ent in enumerate(entries):
                             vc = dict(case, entry=ent)
-                            runs.append(run_once(root, vc, cwd, opt, guard_s, ei))
-                            orcs.append(oracle(root, vc, cwd))
+                            cwd_e = ent.get("cwd", cwd)  # a call of a history may have a working directory of its own
+                            runs.append(run_once(root, vc, cwd_e, opt, guard_s, ei))
+                            orcs.append(oracle(root, vc, cwd_e))
                 out.append({"runs": runs, "oracles": orcs})
             finally:
                 os.chdir(home)
